@@ -357,6 +357,16 @@ func c14Scenarios(tier string) []schedScenario {
 			}
 		}
 	}
+	// a timed catastrophic match that starts while the clock goroutine is in its last sleeps: the extension must keep
+	// (or restart) the clock, or the match never times out; idle values in steps of 1 ms across the exit window
+	for k := 0; k <= 44; k++ {
+		if !thorough && k%2 == 1 {
+			continue
+		}
+		idle := time.Second + time.Duration(k)*time.Millisecond
+		a := []c14op{{'Q', d1}, {'I', idle}, {'L', d1}}
+		mk(fmt.Sprintf("exit+L P=4ms: %v", a), [][]c14op{a}, 4*time.Millisecond, 1, 0, 0)
+	}
 	// free mode from the start: two clients start together, every shim operation is a pure scheduling point
 	for _, a := range [][]c14op{{{'Z', 0}, {'Q', d1}}, {{'Z', 0}, {'Q', d1}, {'Q', d2}}} {
 		for _, b := range [][]c14op{{{'Z', 0}, {'Q', d1}}, {{'Z', 0}, {'Q', d2}}, {{'Z', 0}, {'Q', d2}, {'Q', d1}}} {
